@@ -18,12 +18,12 @@ fn alphabet(_plan: &str, v: &str, t: Tier) -> Alphabet {
     if v == "m2" {
         // two mutators: objects allocated by a mutator that is destroyed before the next
         // collection, handed over to the surviving mutator
-        return Alphabet { sizes: vec![40, 264], sems: vec![Sem::Default], gc_kinds: vec![false, true], bursts: vec![], align_bursts: false, eph_chains: vec![], two_mutators: true, pins: false, cross_writes: true, fields: 1 };
+        return Alphabet { sizes: vec![40, 264], sems: vec![Sem::Default], gc_kinds: vec![false, true], bursts: vec![], refused_allocs: false, align_bursts: false, eph_chains: vec![], two_mutators: true, pins: false, cross_writes: true, fields: 1 };
     }
     if !v.is_empty() {
-        return Alphabet { sizes: vec![48], sems: vec![Sem::Default, Sem::from_name(v)], gc_kinds: vec![false, true], bursts: vec![(264, 100, 2)], align_bursts: false, eph_chains: vec![], two_mutators: false, pins: false, cross_writes: false, fields: 1 };
+        return Alphabet { sizes: vec![48], sems: vec![Sem::Default, Sem::from_name(v)], gc_kinds: vec![false, true], bursts: vec![(264, 100, 2)], refused_allocs: false, align_bursts: false, eph_chains: vec![], two_mutators: false, pins: false, cross_writes: false, fields: 1 };
     }
-    Alphabet { sizes: vec![40, 264, 81920], sems: vec![Sem::Default], gc_kinds: vec![false, true], bursts: vec![], align_bursts: false, eph_chains: vec![], two_mutators: t == Tier::Thorough, pins: false, cross_writes: true, fields: 2 }
+    Alphabet { sizes: vec![40, 264, 81920], sems: vec![Sem::Default], gc_kinds: vec![false, true], bursts: vec![], refused_allocs: false, align_bursts: false, eph_chains: vec![], two_mutators: t == Tier::Thorough, pins: false, cross_writes: true, fields: 2 }
 }
 
 fn depth(plan: &str, v: &str, t: Tier) -> usize {
